@@ -599,7 +599,7 @@ func (a *float64Array) exportType() reflect.Type {
 }
 
 func (a *bigInt64Array) toRaw(value Value) uint64 {
-	return toBigInt64(value).Uint64()
+	return uint64(toBigInt64(value).Int64())
 }
 
 func (a *bigInt64Array) ptr(idx int) *int64 {
@@ -646,8 +646,8 @@ func (a *bigInt64Array) swap(i, j int) {
 }
 
 func (a *bigInt64Array) typeMatch(v Value) bool {
-	if _, ok := v.(*valueBigInt); ok {
-		return true
+	if b, ok := v.(*valueBigInt); ok {
+		return (*big.Int)(b).IsInt64()
 	}
 	return false
 }
@@ -702,8 +702,8 @@ func (a *bigUint64Array) swap(i, j int) {
 }
 
 func (a *bigUint64Array) typeMatch(v Value) bool {
-	if _, ok := v.(*valueBigInt); ok {
-		return true
+	if b, ok := v.(*valueBigInt); ok {
+		return (*big.Int)(b).IsUint64()
 	}
 	return false
 }
